@@ -22,13 +22,18 @@ def pkey(place):
 
 
 class OptInterp:
-    def __init__(self, body, sources):
-        """sources: callee key -> abstract value for the result of that call"""
+    def __init__(self, body, sources, watch=()):
+        """sources: callee key or instruction id -> abstract value for the result of that call.
+        Values: S/N (Option), O/E (Result Ok/Err), T/F (bool), ? (unknown).
+        watch: instruction ids; for every explored path that returns, `paths` records which of them it passed"""
         self.body = body
         self.sources = sources
         self.results = []
         self.steps = 0
         self.trace = []
+        self.watch = set(watch)
+        self.paths = []
+        self._passed = []
 
     def val(self, env, op):
         if op.place is not None:
@@ -41,6 +46,8 @@ class OptInterp:
             s = op.const.get("s") or ""
             if "None" in s and "Option" in s:
                 return "N"
+            if op.const.get("ty") == "bool" and "val" in op.const:
+                return "T" if op.const["val"] == "1" else "F"
         return "?"
 
     def assign(self, env, place, v, whole_from=None):
@@ -59,8 +66,34 @@ class OptInterp:
     def call_model(self, env, ins):
         c = ins.callee or ""
         a = [self.val(env, o) for o in ins.args]
+        if ins.id in self.sources:
+            return self.sources[ins.id]
         if c in self.sources:
             return self.sources[c]
+        RES = "core::result::Result"
+        if c.startswith(RES + "::"):
+            nm = c.split("::")[-1]
+            if nm == "is_ok":
+                return {"O": "T", "E": "F"}.get(a[0], "?")
+            if nm == "is_err":
+                return {"O": "F", "E": "T"}.get(a[0], "?")
+            if nm in ("is_ok_and",):
+                return "F" if a[0] == "E" else "?"
+            if nm in ("is_err_and",):
+                return "F" if a[0] == "O" else "?"
+            if nm in ("unwrap", "expect"):
+                return "!" if a[0] == "E" else "?"
+            if nm in ("unwrap_err", "expect_err"):
+                return "!" if a[0] == "O" else "?"
+            if nm == "ok":
+                return {"O": "S", "E": "N"}.get(a[0], "?")
+            if nm == "err":
+                return {"O": "N", "E": "S"}.get(a[0], "?")
+            if nm in ("as_ref", "as_mut", "map", "map_err", "cloned", "copied"):
+                return a[0]
+            return "?"
+        if c.endswith("as core::clone::Clone>::clone") and "Result" in c:
+            return a[0]
         name = c.split("::")[-1]
         if c.startswith(OPT + "::"):
             if name in ("map", "as_ref", "as_mut", "copied", "cloned", "inspect", "as_deref", "take"):
@@ -142,6 +175,9 @@ class OptInterp:
                             env[(base[0], base[1] + (i,))] = self.val(env, o)
                     else:
                         self.assign(env, ins.place, "?")
+                elif rk == "unop" and ins.rv.get("op") == "Not":
+                    v = self.val(env, ins.ops[0])
+                    self.assign(env, ins.place, {"T": "F", "F": "T"}.get(v, "?"))
                 elif rk == "discr":
                     p = ins.discr_place()
                     discr_of = dict(discr_of)
@@ -155,8 +191,13 @@ class OptInterp:
                 idx += 1
                 continue
             if k == "call":
+                if ins.id in self.watch:
+                    self._passed = self._passed + [ins.id]
+                v = self.call_model(env, ins)
+                if v == "!":
+                    return  # panics on this path
                 if ins.dest is not None:
-                    self.assign(env, ins.dest, self.call_model(env, ins))
+                    self.assign(env, ins.dest, v)
                 if ins.target is None:
                     return  # diverges
                 bb, idx = ins.target, 0
@@ -166,25 +207,46 @@ class OptInterp:
                 continue
             if k == "return":
                 self.results.append(env.get((0, ()), "?"))
+                self.paths.append(list(self._passed))
                 return
             if k == "switch":
                 o = ins.ops[0]
                 src = discr_of.get(o.place.local) if o.place is not None and o.place.is_local else None
+                tmap = dict(ins.targets)
+                saved = list(self._passed)
+
+                def dead(t):
+                    return self.body.blocks[t][-1].kind == "unreachable" and len(self.body.blocks[t]) == 1
                 if src is not None:
                     cur = env.get(src, "?")
-                    # Option: discriminant 0 = None, 1 = Some
-                    branches = []
-                    tmap = dict(ins.targets)
-                    for dval, want in ((0, "N"), (1, "S")):
-                        t = tmap.get(dval, ins.otherwise)
-                        if self.body.blocks[t][-1].kind == "unreachable" and len(self.body.blocks[t]) == 1:
-                            continue
-                        if cur in ("?", want):
-                            branches.append((t, want))
-                    for t, want in branches:
-                        e2 = dict(env)
-                        e2[src] = want
-                        self.explore(t, 0, e2, discr_of)
+                    if cur in ("O", "E"):
+                        options = ((0, "O"), (1, "E"))
+                    elif cur in ("S", "N"):
+                        options = ((0, "N"), (1, "S"))
+                    else:
+                        ty = self.body.local_ty(src[0]) if isinstance(src[0], int) and src[0] >= 0 else ""
+                        if not src[1] and "Option<" in ty.split("<")[0] + "<" and ty.lstrip("&").startswith(("std::option::Option<", "core::option::Option<")):
+                            options = ((0, "N"), (1, "S"))
+                        elif not src[1] and ty.lstrip("&").startswith(("std::result::Result<", "core::result::Result<")):
+                            options = ((0, "O"), (1, "E"))
+                        else:
+                            options = None
+                    if options is not None:
+                        for dval, want in options:
+                            t = tmap.get(dval, ins.otherwise)
+                            if dead(t) or (cur != "?" and cur != want):
+                                continue
+                            e2 = dict(env)
+                            e2[src] = want
+                            self._passed = list(saved)
+                            self.explore(t, 0, e2, discr_of)
+                        return
+                bv = self.val(env, o) if o.place is not None else "?"
+                if bv in ("T", "F") and ins.j.get("ty") == "bool":
+                    t = tmap.get(0, ins.otherwise) if bv == "F" else ins.otherwise
+                    if not dead(t):
+                        self._passed = list(saved)
+                        self.explore(t, 0, dict(env), discr_of)
                     return
                 ts = [b for _, b in ins.targets] + [ins.otherwise]
                 seen = set()
@@ -192,9 +254,13 @@ class OptInterp:
                     if t in seen:
                         continue
                     seen.add(t)
-                    if self.body.blocks[t][-1].kind == "unreachable" and len(self.body.blocks[t]) == 1:
+                    if dead(t):
                         continue
-                    self.explore(t, 0, dict(env), discr_of)
+                    e2 = dict(env)
+                    if src is not None and t != ins.otherwise:
+                        pass
+                    self._passed = list(saved)
+                    self.explore(t, 0, e2, discr_of)
                 return
             if k == "unreachable":
                 return
